@@ -4,6 +4,7 @@ import math
 import numpy as np
 
 from .. import gen
+from .. import forms as vforms
 from ..oracles import matching as OM
 from ..util import scale_of
 from .C01 import gen_pair
@@ -72,12 +73,16 @@ def run_case(ctx, k, rng):
     # container of the input: the same diagrams as nested lists / integer arrays must again yield certificates of the same distance
     if A.size and B.size and rng.random() < 0.25:
         isint = bool(np.all(A == np.round(A)) and np.all(B == np.round(B)) and sc < 1e9)
-        fa, fb = (A.astype(np.int64), B.astype(np.int64)) if (isint and rng.random() < 0.5) else (A.tolist(), B.tolist())
+        r3 = rng.random()
+        if r3 < 0.35:       # another memory layout of the same float64 values
+            fa, fb = vforms.relayout(rng, A)[0], vforms.relayout(rng, B)[0]
+        else:
+            fa, fb = (A.astype(np.int64), B.astype(np.int64)) if (isint and rng.random() < 0.5) else (A.tolist(), B.tolist())
         for kind, fn, tolrow in (("bn", bottleneck, 1e-9 * sc), ("ws", wasserstein, 1e-7 * sc)):
             try:
                 ctx.ran(2)
                 d0 = fn(A, B)
-                d, rows = fn(fa, fb, matching=True)
+                d, rows = fn(fa, fb, matching=vforms.npflag(rng, True))
                 rows = np.asarray(rows).reshape(-1, 3)
                 okc, why, total = OM.certify(S, T, rows.tolist(), kind, tolrow)
                 same = abs(float(d) - float(d0)) <= (0 if kind == "bn" else 1e-7 * sc * (len(S) + len(T) + 1))
